@@ -95,6 +95,7 @@ SC   == <<"scenario", "-">>
 NET  == <<"lanelet_network", "-">>
 L1   == <<"lanelet", "1">>
 L2   == <<"lanelet", "2">>
+L3   == <<"lanelet", "3">>          \* left neighbour of lanelet 1: its right boundary IS the left boundary of lanelet 1
 ST   == <<"state", "-">>
 PRED == <<"prediction", "-">>
 TRAJ == <<"trajectory", "-">>
@@ -102,6 +103,8 @@ OS21 == <<"obstacle_static", "21">>
 OD22 == <<"obstacle_dynamic", "22">>
 OD23 == <<"obstacle_dynamic", "23">>
 OD24 == <<"obstacle_dynamic", "24">>
+OD25 == <<"obstacle_dynamic", "25">>        \* point-mass trajectory (position, velocity, velocity_y; heading derived)
+OD29 == <<"obstacle_dynamic", "29">>        \* custom states with velocity components and no orientation
 OP26 == <<"obstacle_phantom", "26">>
 OE27 == <<"obstacle_environment", "27">>
 OE28 == <<"obstacle_environment", "28">>
@@ -122,6 +125,10 @@ BaseWorld == <<
   C("lanelet_center", "none", <<SC, NET, L2>>, << <<8, 2>>, <<12, 4>> >>, <<>>),
   C("lanelet_right",  "none", <<SC, NET, L2>>, << <<8, 1>>, <<12, 3>> >>, <<>>),
   C("lanelet_polygon", "none", <<SC, NET, L2>>, << <<8, 1>>, <<8, 3>>, <<12, 5>>, <<12, 3>> >>, <<>>),
+  C("lanelet_left",   "none", <<SC, NET, L3>>, << <<0, 4>>, <<4, 4>>, <<8, 5>> >>, <<>>),
+  C("lanelet_center", "none", <<SC, NET, L3>>, << <<0, 3>>, <<4, 3>>, <<8, 4>> >>, <<>>),
+  C("lanelet_right",  "none", <<SC, NET, L3>>, << <<0, 2>>, <<4, 2>>, <<8, 3>> >>, <<>>),
+  C("lanelet_polygon", "none", <<SC, NET, L3>>, << <<0, 2>>, <<0, 4>>, <<4, 4>>, <<8, 5>>, <<8, 3>>, <<4, 2>> >>, <<>>),
   C("sign",           "none", <<SC, NET, <<"sign", "11">> >>, << <<4, -1>> >>, <<>>),
   C("light",          "none", <<SC, NET, <<"light", "12">> >>, << <<8, 4>> >>, <<>>),
   C("static_init",    "static",  <<SC, OS21, ST>>, << <<2, 1>> >>, << <<3, 4, 5>> >>),
@@ -140,6 +147,14 @@ BaseWorld == <<
                                  << <<10, -3>>, <<12, -3>>, <<13, -4>>, <<14, -2>>, <<15, -4>> >>, << <<0, 1, 1>> >>),
   C("uncertain_pos",  "dynamic", <<SC, OD24, ST>>, << <<-5, 5>> >>, << <<3, 4, 5>> >>),
   C("uncertain_ori",  "dynamic", <<SC, OD24, ST>>, <<>>, << <<4, 3, 5>>, <<3, 4, 5>> >>),
+  C("dynamic_init",   "dynamic", <<SC, OD25, ST>>, << <<-3, -9>> >>, << <<1, 0, 1>> >>),
+  C("pm_position",    "dynamic", <<SC, OD25, PRED, TRAJ, S("0")>>, << <<-3, -8>> >>, <<>>),
+  C("pm_heading",     "dynamic", <<SC, OD25, PRED, TRAJ, S("0")>>, <<>>, << <<3, 4, 5>> >>),     \* atan2(velocity_y, velocity)
+  C("pm_position",    "dynamic", <<SC, OD25, PRED, TRAJ, S("1")>>, << <<0, -4>> >>, <<>>),
+  C("pm_heading",     "dynamic", <<SC, OD25, PRED, TRAJ, S("1")>>, <<>>, << <<4, -3, 5>> >>),
+  C("dynamic_init",   "dynamic", <<SC, OD29, ST>>, << <<-8, -12>> >>, << <<0, 1, 1>> >>),
+  C("custom_position", "dynamic", <<SC, OD29, PRED, TRAJ, S("0")>>, << <<-8, -11>> >>, <<>>),   \* velocity components: not asserted
+  C("custom_position", "dynamic", <<SC, OD29, PRED, TRAJ, S("1")>>, << <<-7, -10>> >>, <<>>),
   C("phantom_occ",    "phantom", <<SC, OP26, PRED, OCC("0")>>, << <<-10, 0>> >>, << <<-3, 4, 5>> >>),
   C("phantom_occ",    "phantom", <<SC, OP26, PRED, OCC("1")>>, << <<-12, 2>>, <<-9, 4>>, <<-9, 2>> >>, <<>>),
   C("env_shape",      "environment", <<SC, OE27>>, << <<20, 20>>, <<20, 23>>, <<24, 23>>, <<24, 20>> >>, <<>>),
